@@ -130,6 +130,23 @@ func runC04(r *run) {
 				c.attrs[k].key = "k" + c.attrs[k].key
 			}
 		}
+		if g.chance(1, 6) {
+			// group members named like the built-in fields, holding any value that is not a time.Time: ordinary members
+			var items []gattr
+			for _, name := range []string{"time", "level", "msg", "logger", "caller"} {
+				if g.chance(1, 2) {
+					v := g.genScalar(false)
+					for v.kind == "time" || v.kind == "times" {
+						v = g.genScalar(false)
+					}
+					items = append(items, gattr{key: name, val: v})
+				}
+			}
+			if g.chance(1, 2) {
+				items = []gattr{{key: "inner", isGroup: true, val: gval{kind: "group", items: items}}, {key: "n", val: gval{kind: "int", goVal: 1, tok: "I:1"}}}
+			}
+			c.attrs = append(c.attrs, gattr{key: []string{"req", "g", "zz"}[g.intn(3)], isGroup: true, val: gval{kind: "group", items: items}})
+		}
 		if g.chance(1, 2) {
 			c.name = []string{"app", "my logger", "q\"uote\nnl", "\xff"}[g.intn(4)]
 		}
